@@ -58,4 +58,43 @@ GenBigOk(e) ==      \* a refusal (panic) is allowed when the request cannot be m
           /\ DivModCert(e.primes[i], FromInt(2 * e.n), e.hmod[i], BOne)                \* = 1 (mod 2N)
           /\ IsPrimeCert(e.primes[i], e.certs[i])
           /\ \A j \in 1..Len(e.primes) : i # j => e.primes[i] # e.primes[j])          \* distinct
+
+(***************************************************************************)
+(* The primality test itself, in both directions: a value the library      *)
+(* calls prime carries a Miller-Rabin record, a value it calls composite   *)
+(* (above 1) a factorisation d * f with 1 < d, f as an untrusted hint.     *)
+(* (Modulus::new computes the flag with the same routine: both must agree.)*)
+(***************************************************************************)
+SmallPrimes == {2, 3, 5, 7, 11, 13, 17, 19, 23, 29, 31, 37}
+IsPrimeEventOk(e) ==
+  /\ ~e.panic /\ e.flag = e.direct
+  /\ IF e.flag THEN (IF BLe(e.v, FromInt(37)) THEN ToInt(e.v) \in SmallPrimes ELSE IsPrimeCert(e.v, e.cert))
+     ELSE \/ BLe(e.v, BOne)
+          \/ (BMul(e.d, e.f) = e.v /\ BLt(BOne, e.d) /\ BLt(BOne, e.f))
+
+(***************************************************************************)
+(* CoeffModulus::max_bit_count / bfv_default: the HomomorphicEncryption.org*)
+(* table (ternary secret, classical security), and default moduli that are *)
+(* distinct NTT primes for the degree whose product stays within the table.*)
+(***************************************************************************)
+StdBits(sec, n) ==
+  LET row == CASE sec = "tc128" -> <<27, 54, 109, 218, 438, 881>>
+               [] sec = "tc192" -> <<19, 37, 75, 152, 305, 611>>
+               [] OTHER         -> <<14, 29, 58, 118, 237, 476>>
+  IN CASE n = 1024 -> row[1] [] n = 2048 -> row[2] [] n = 4096 -> row[3] [] n = 8192 -> row[4]
+       [] n = 16384 -> row[5] [] n = 32768 -> row[6] [] OTHER -> 0
+RECURSIVE ProdB(_, _)
+ProdB(ps, k) == IF k = 0 THEN BOne ELSE BMul(ProdB(ps, k - 1), ps[k])
+DefaultEventOk(e) ==
+  /\ ~e.maxbits_panic
+  /\ e.maxbits = (IF e.sec = "none" THEN 2147483647 ELSE StdBits(e.sec, e.n))
+  /\ IF e.sec = "none" \/ StdBits(e.sec, e.n) = 0 THEN e.panic           \* nothing sensible to return: refusal
+     ELSE /\ ~e.panic /\ Len(e.primes) >= 1 /\ Len(e.certs) = Len(e.primes)
+          /\ \A i \in 1..Len(e.primes) :
+               /\ DivModCert(e.primes[i], FromInt(2 * e.n), e.hmod[i], BOne)
+               /\ IsPrimeCert(e.primes[i], e.certs[i])
+               /\ \A j \in 1..Len(e.primes) : i # j => e.primes[i] # e.primes[j]
+          /\ BBitLen(ProdB(e.primes, Len(e.primes))) <= StdBits(e.sec, e.n)
+
+PrimesEventOk(e) == CASE e.ev = "isprime" -> IsPrimeEventOk(e) [] e.ev = "default" -> DefaultEventOk(e) [] OTHER -> GenBigOk(e)
 ===============================================================================
